@@ -423,9 +423,11 @@ class UpdaterModel:
                             if nm == x[1] and 1 <= k <= self.dispatch.argc:
                                 upd_ty = self.dispatch.tystr(self.dispatch.locals[k]['ty']).lstrip('&').replace('mut ', '').strip().split('<')[0]
         ctor = None
-        for b in fb.bodies(common.DAEMON):
-            if b.defkind != 'Closure' and upd_ty and b.tystr(b.locals[0]['ty']).split('<')[0] == upd_ty and b.path != self.dispatch.path:
-                ctor = b
+        ctors = [b for b in fb.bodies(common.DAEMON)
+                 if b.defkind != 'Closure' and upd_ty and b.tystr(b.locals[0]['ty']).split('<')[0] == upd_ty and b.path != self.dispatch.path]
+        # several constructors (`new` delegating to a generic `with_tracker`): the outermost one, which fixes every part
+        outer = [b for b in ctors if not any(o is not b and common.reaches_call(fb, o, lambda n, p_=b.path: n == p_) for o in ctors)]
+        ctor = (outer or ctors or [None])[-1]
         if ctor is None:
             return None, None, None
         chk.saw(ctor)
